@@ -39,7 +39,7 @@ def run_cut(case):
             except Exception as ex:  # noqa: BLE001
                 events.append({"e": "raise", "solver": "cg", "what": type(ex).__name__})
         # branch-and-price limits and the relative gap tolerance may end the search early, never license OPTIMAL for a non-minimal plan
-        for kw in case.get("bp_limits", ({"gap_tol": 0.2}, {"gap_tol": 0.5}, {"max_nodes": 1}, {"max_nodes": 3}, {"max_iter": 1}, {"max_iter": 2, "gap_tol": 0.1})):
+        for kw in case.get("bp_limits", ({"gap_tol": 0.2}, {"gap_tol": 0.5}, {"max_nodes": 1}, {"max_nodes": 3}, {"max_iter": 0}, {"max_iter": 1}, {"max_iter": 2, "gap_tol": 0.1})):
             try:
                 events.append(_event("bp", solve_bp(case["demands"], roll_width=W, piece_sizes=case["sizes"], **kw)))
             except Exception as ex:  # noqa: BLE001
